@@ -268,6 +268,8 @@ func raceLogSize() (n int64, first string) {
 	return
 }
 
+var raceBlockedCases int
+
 func runRace(rng *rand.Rand, idx int, tier string) Case {
 	e := &raceEnv{}
 	var opts []eb.Option
@@ -351,6 +353,9 @@ func runRace(rng *rand.Rand, idx int, tier string) Case {
 	case <-done:
 	case <-time.After(30 * time.Second):
 		blocked = true
+		if raceBlockedCases++; raceBlockedCases >= 4 {
+			stopRun = true
+		}
 		buf := make([]byte, 1<<16)
 		n := runtime.Stack(buf, true)
 		note = string(buf[:n])
